@@ -120,19 +120,24 @@ Outcomes ==
     ELSE IF StrictShort(Cur) THEN OptionOutcomes(ShortMatches(Cur[2]))
     ELSE OpenOutcomes
 
+(* the state after a call with outcome o *)
+Apply(o) ==
+    /\ optind' = o.noi /\ pending' = o.pend /\ oarg' = o.oa /\ parg' = o.pa /\ ret' = o.ret
+    /\ role' = [i \in 1..Argc |-> IF i = optind + 1 /\ o.noi > optind THEN o.r1
+                                  ELSE IF i = optind + 2 /\ o.noi = optind + 2 THEN o.r2 ELSE role[i]]
+    /\ UNCHANGED <<argv, table, optstr>>
+
 (* aws_cli_getopt_long(argc, argv, optstring, longopts, longindex): r = return value, n = aws_cli_optind afterwards,     *)
 (* oa / pa = what aws_cli_optarg / aws_cli_positional_arg point at afterwards, li = *longindex afterwards (haveli: a     *)
-(* non-NULL longindex was passed)                                                                                        *)
+(* non-NULL longindex was passed). The call is allowed iff some outcome fits what was reported.                          *)
+Fits(o, r, n, oa, pa, li, haveli) ==
+    /\ o.ret = r /\ o.noi = n
+    /\ Match(o.oa, oa) /\ Match(o.pa, pa)
+    /\ haveli => Match(o.li, li)
+CanCall == Argc >= 1 /\ optind >= 1
 GetOpt(r, n, oa, pa, li, haveli) ==
-    /\ Argc >= 1 /\ optind >= 1
-    /\ \E o \in Outcomes :
-          /\ o.ret = r /\ o.noi = n
-          /\ Match(o.oa, oa) /\ Match(o.pa, pa)
-          /\ haveli => Match(o.li, li)
-          /\ optind' = n /\ pending' = o.pend /\ oarg' = o.oa /\ parg' = o.pa /\ ret' = r
-          /\ role' = [i \in 1..Argc |-> IF i = optind + 1 /\ n > optind THEN o.r1
-                                        ELSE IF i = optind + 2 /\ n = optind + 2 THEN o.r2 ELSE role[i]]
-    /\ UNCHANGED <<argv, table, optstr>>
+    /\ CanCall
+    /\ \E o \in Outcomes : Fits(o, r, n, oa, pa, li, haveli) /\ Apply(o)
 
 -----------------------------------------------------------------------------
 (* the environment: which table / optstring the following calls pass, which argv, and starting a run *)
@@ -143,11 +148,15 @@ Start(a) == /\ argv' = a /\ optind' = 1 /\ pending' = FALSE /\ ret' = NoRet
             /\ role' = [i \in 1..Len(a) |-> IF i = 1 THEN "program" ELSE "none"]
 
 (* another set of arguments; the run starts either with aws_cli_reset_state() ("R": every global as at program start)  *)
-(* or with aws_cli_optind = 1 ("O", the header's other way; optarg / positional then still point into the old vector)  *)
+(* or with aws_cli_optind = 1 ("O", the header's other way; optarg / positional then still point into the old vector). *)
+(* The first vector of a process needs neither ("I": aws_cli_optind is "initialized to 1").                            *)
 SetArgv(a, mode) ==
-    /\ Len(a) >= 1 /\ mode \in {"R", "O"}
+    /\ Len(a) >= 1 /\ mode \in {"R", "O", "I"}
+    /\ mode = "I" => argv = <<>>                    \* nothing has been parsed yet
     /\ Start(a)
-    /\ IF mode = "R" THEN oarg' = 0 /\ parg' = 0 ELSE oarg' = Open /\ parg' = Open
+    /\ IF mode = "R" THEN oarg' = 0 /\ parg' = 0
+       ELSE IF mode = "I" THEN UNCHANGED <<oarg, parg>>
+       ELSE oarg' = Open /\ parg' = Open
     /\ UNCHANGED <<table, optstr>>
 
 (* rerun the parser over the same argv *)
